@@ -3,7 +3,7 @@
 // Scenario = (source model, shape k of it, destination, clone count).
 //   source      : every sample file (de-duplicated by content) and four API-built models
 //   destination : the same model | a fresh NifFile::Create(same version) | another loaded model of
-//                 the same version (thorough: every other one, quick: the first other one)
+//                 the same version (thorough: every other one, quick: the largest other one)
 //   count       : 1 or 2 (the same source shape cloned twice under different names)
 // Oracle, from the statement:
 //   (a) the source model is not modified: cross-model, its Save(raw) equals the Save(raw) of a twin
@@ -67,6 +67,7 @@ struct SrcRef {
 	Fields model;					 // twin 3: model snapshot
 	std::vector<Fields> shape;		 // twin 3: per shape
 	std::vector<uint32_t> shape_block;
+	uint32_t root_block = NIF_NPOS;
 	std::vector<std::string> shape_name;
 	std::vector<bool> model_space;	 // CloneShape strips normals / tangents for this shape
 	std::vector<std::vector<std::string>> bones;
@@ -106,6 +107,7 @@ static SrcRef& get_ref(size_t mi) {
 		must_load(t, m);
 		r.model = snap::model_snapshot(t);
 		auto& hdr = t.GetHeader();
+		r.root_block = t.GetBlockID(t.GetRootNode());
 		for (auto s : t.GetShapes()) {
 			r.shape.push_back(snap::shape_fields(t, s));
 			r.shape_block.push_back(t.GetBlockID(s));
@@ -187,7 +189,8 @@ static std::vector<std::string> ignore_list(bool model_space) {
 }
 
 // (b) reference walk + masked payload compare
-static size_t compare_tree(Ctx& c, const std::vector<Payload>& PS, uint32_t srcRoot, const std::vector<Payload>& PD, uint32_t dstRoot, bool model_space, bool same_model) {
+static size_t compare_tree(Ctx& c, const std::vector<Payload>& PS, uint32_t srcRoot, const std::vector<Payload>& PD, uint32_t dstRoot, bool model_space, bool same_model,
+						   uint32_t srcSceneRoot, uint32_t dstSceneRoot) {
 	std::map<uint32_t, uint32_t> s2d;
 	struct Deferred { uint32_t si, di; size_t k; };
 	std::vector<Deferred> ptrs;
@@ -251,6 +254,14 @@ static size_t compare_tree(Ctx& c, const std::vector<Payload>& PS, uint32_t srcR
 		if (rb.value == NIF_NPOS || rb.value >= PD.size()) {
 			c.viol("clone:dangling-ptr:" + holder, vf::strf("%s (block %u): pointer #%zu = %u does not resolve inside the destination (%zu blocks); the source's reaches a %s", holder.c_str(), p.di, p.k,
 															rb.value, PD.size(), PS[ra.value].type.c_str()));
+			continue;
+		}
+		if (ra.value == srcSceneRoot) {
+			// a pointer to the source's root node (skeleton root): the same content in the destination is its root node, whatever node class that is
+			c.st.add("pointers_to_scene_root");
+			if (rb.value != dstSceneRoot)
+				c.viol("clone:ptr-to-root-misses-root:" + holder, vf::strf("%s (block %u): pointer #%zu reaches the root node (block %u) in the source but block %u (a %s) in the destination, whose root node is block %u",
+																		 holder.c_str(), p.di, p.k, ra.value, rb.value, PD[rb.value].type.c_str(), dstSceneRoot));
 			continue;
 		}
 		if (PD[rb.value].type != PS[ra.value].type)
@@ -354,12 +365,15 @@ static void run_scenario(const Scn& sc, Stats& st) {
 			}
 			// (b)
 			size_t hooks_missed = 0;
-			for (auto& p : PD) hooks_missed += p.enumerated_not_written;
+			for (auto& p : PD) {
+				hooks_missed += p.enumerated_not_written;
+				if (p.enumerated_not_written) st.distinct("types_with_refs_not_seen_by_write_hook", p.type);
+			}
 			if (hooks_missed) st.add("enumerated_refs_not_seen_by_write_hook", (long long) hooks_missed);
 			if (ok) {
 				for (int i = 0; i < sc.count; i++) {
 					uint32_t di = D.GetBlockID(b.clones[(size_t) i]);
-					size_t pairs = compare_tree(c, ref.payloads, ref.shape_block[sc.shape], PD, di, ms, same);
+					size_t pairs = compare_tree(c, ref.payloads, ref.shape_block[sc.shape], PD, di, ms, same, ref.root_block, D.GetBlockID(D.GetRootNode()));
 					st.max("blocks_in_cloned_subtree", (long long) pairs);
 					if (pairs > 1) nontrivial = true;
 				}
@@ -419,10 +433,18 @@ static void run_scenario(const Scn& sc, Stats& st) {
 // ---------- enumeration ----------
 static std::vector<std::string> dests_for(size_t src) {
 	std::vector<std::string> d = {"same", "fresh"};
+	std::vector<size_t> others;
 	for (size_t i = 0; i < g_all.size(); i++) {
 		if (i == src || g_vkey[i] != g_vkey[src] || g_all[i].bytes == g_all[src].bytes) continue;
-		d.push_back("file:" + g_all[i].name);
-		if (!g_all_others) break;
+		others.push_back(i);
+	}
+	if (others.empty()) return d;
+	if (g_all_others) for (auto i : others) d.push_back("file:" + g_all[i].name);
+	else {
+		// one other: the largest model of the same version (g_all is in size order, API-built models last and tiny)
+		size_t best = others[0];
+		for (auto i : others) if (g_all[i].bytes.size() >= g_all[best].bytes.size()) best = i;
+		d.push_back("file:" + g_all[best].name);
 	}
 	return d;
 }
@@ -447,7 +469,7 @@ int main(int argc, char** argv) {
 	std::vector<Model> api = snap::api_models();
 	g_all = samples;
 	for (auto& m : api) g_all.push_back(m);
-	size_t nsamples = std::min((size_t) A.geti("files", thorough ? (long long) samples.size() : 12), samples.size());
+	size_t nsamples = std::min((size_t) A.geti("files", (long long) samples.size()), samples.size());
 	for (size_t i = 0; i < g_all.size(); i++) {
 		NifFile n;
 		must_load(n, g_all[i]);
@@ -537,8 +559,15 @@ int main(int argc, char** argv) {
 						  "source models = %zu (%zu of %zu distinct sample files out of %zu, smallest first, + %zu API-built) with %zu shapes in %zu version groups; destinations are drawn from all %zu models; "
 						  "evaluations = scenarios executed (each builds the destination three times: payload walk, raw save, default save); distinct_nontrivial = scenarios (each enumerated once) "
 						  "whose clone carries at least one referenced child block that was compared",
-						  g_all_others ? "every other loaded model" : "the first other loaded model", g_sources.size(), nsamples, samples.size(), nfiles, api.size(), total_shapes, versions.size(),
+						  g_all_others ? "every other loaded model" : "the largest other loaded model", g_sources.size(), nsamples, samples.size(), nfiles, api.size(), total_shapes, versions.size(),
 						  g_all.size()));
+	{
+		std::map<std::string, int> groups;
+		for (auto& v : g_vkey) groups[v]++;
+		J g = J::obj();
+		for (auto& kv : groups) g.set(kv.first, kv.second);
+		top.set_info("models_per_version", g);
+	}
 	top.set_info("source_models", (long long) g_sources.size());
 	top.set_info("source_shapes", (long long) total_shapes);
 	top.set_info("sample_files_total", (long long) nfiles);
